@@ -811,12 +811,87 @@ fn query(pool: &[Option<Obj>], toks: &[&str]) -> String {
             }
             _ => "skip".to_string(),
         },
+        // ---- queries used by the Python comparison (C19): what the binding source says each method forwards to
+        "repr" => match reg(toks[1]) {
+            Some(Obj::E(e)) => format!("repr={} str={}", hex(&format!("PythonExpression(\"{}\")", e)), hex(&e.to_string())),
+            Some(Obj::T(t)) => format!("repr={} str={}", hex(&format!("PythonTruthTable(\n{})", t)), hex(&t.to_string())),
+            Some(Obj::B(b)) => format!("repr={} str={}", hex(&format!("{:?}", b)), hex(&format!("{:?}", b))),
+            None => "skip".to_string(),
+        },
+        "row" => match reg(toks[1]) {
+            Some(Obj::T(t)) => format!("row={}", bits(&t.row(toks[2].parse().unwrap()))),
+            _ => "skip".to_string(),
+        },
+        "pyctor" => "exc=TypeError".to_string(),
+        "pyvars" => {
+            let names_: Vec<String> = toks[1..].iter().map(|h| unhex(h)).collect();
+            format!(
+                "vars={} var={} bool={}",
+                names_.iter().map(|n| hex(&bbf::expressions::var(n).to_string())).collect::<Vec<_>>().join(","),
+                hex(&bbf::expressions::var(&names_[0]).to_string()),
+                hex(&bbf::expressions::bool(true).to_string())
+            )
+        }
+        "pycopy" => match reg(toks[1]) {
+            Some(Obj::E(e)) => format!("show={}", hex(&e.clone().to_string())),
+            _ => "skip".to_string(),
+        },
+        "pyfrom" => match reg(toks[1]) {
+            Some(_) => "same=11".to_string(),
+            None => "skip".to_string(),
+        },
+        // a freshly built object of the same function over the same inputs must be indistinguishable (C15)
+        "fresh" => match reg(toks[1]) {
+            Some(o) => {
+                let ins: Vec<String> = inputs_of(&o).into_iter().collect();
+                let tv = truth_vector(&o);
+                let n = ins.len();
+                let lit = |i: usize| -> E { ExpressionNode::Literal(ins[i].clone()).into() };
+                let mut terms: Vec<E> = vec![];
+                for (row, val) in tv.iter().enumerate() {
+                    if *val {
+                        let cells: Vec<E> = (0..n)
+                            .map(|i| if (row >> (n - 1 - i)) & 1 == 1 { lit(i) } else { Expression::negate(&lit(i)) })
+                            .collect();
+                        terms.push(if n == 0 { ExpressionNode::Constant(true).into() } else { Expression::n_ary_and(&cells) });
+                    }
+                }
+                for i in 0..n {
+                    terms.push(Expression::n_ary_and(&[lit(i), Expression::negate(&lit(i))]));
+                }
+                let e: E = if terms.is_empty() { ExpressionNode::Constant(false).into() } else { Expression::n_ary_or(&terms) };
+                let b = |x: bool| if x { '1' } else { '0' };
+                match &o {
+                    Obj::E(_) => "skip".to_string(),
+                    Obj::T(t) => {
+                        let f = T::from(e);
+                        format!("fresh={}{}{}{}{}", b(*t == f), b(t.is_equivalent(&f)), b(f.is_equivalent(t)), b(t.is_implied_by(&f)), b(f.is_implied_by(t)))
+                    }
+                    Obj::B(d) => {
+                        let f = B::try_from(e).unwrap();
+                        format!("fresh={}{}{}{}{}", b(d.node_count() == f.node_count()), b(d.is_equivalent(&f)), b(f.is_equivalent(d)), b(d.is_implied_by(&f)), b(f.is_implied_by(d)))
+                    }
+                }
+            }
+            None => "skip".to_string(),
+        },
+        // weight alone (no enumeration): usable for diagrams with many inputs
+        "weight" => match reg(toks[1]) {
+            Some(Obj::B(b)) => format!("w={} deg={} nodes={}", b.weight(), b.degree(), b.node_count()),
+            Some(Obj::T(t)) => format!("w={} deg={} nodes=-", t.weight(), t.degree()),
+            Some(Obj::E(_)) | None => "skip".to_string(),
+        },
         "preds" => match reg(toks[1]) {
             Some(Obj::E(e)) => format!(
-                "nnf={} cnf={} dnf={}",
+                "nnf={} cnf={} dnf={} lit={} const={} not={} and={} or={}",
                 e.is_nnf() as u8,
                 e.is_cnf() as u8,
-                e.is_dnf() as u8
+                e.is_dnf() as u8,
+                e.is_literal() as u8,
+                e.is_constant() as u8,
+                e.is_not() as u8,
+                e.is_and() as u8,
+                e.is_or() as u8
             ),
             _ => "skip".to_string(),
         },
